@@ -138,6 +138,8 @@ class Chan:
         self.delivered = [0, 0]  # bytes of direction d handed to the sink of 1-d
         self.tx_left = [0, 0]  # observer's parse of the SDU in progress in direction d
         self.frames = [0, 0]
+        self.close_asked = [False, False]  # the application of endpoint e called disconnect() on this channel
+        self.closed_by = None  # endpoint whose Disconnection Request was seen first
         for d in (0, 1):
             mtu, mps, credits = params[1 - d]  # what the RECEIVER of direction d announced
             self.trace[d].append(_ev("open", n=credits, mtu=mtu, mps=mps))
@@ -197,6 +199,19 @@ class Wire:
                 self.stray(ep, f"credit packet for cid 0x{cid:04x} which is no open channel of its sender")
                 return
             ch.trace[1 - ep].append(_ev("grant", n=credits))  # ep is the receiver of direction 1-ep
+        elif code == DISC_REQ and len(data) >= 4:
+            # Disconnection Request (Core Vol 3 Part A 4.6): DCID = the channel's endpoint at the receiver of the request,
+            # SCID = its endpoint at the sender.  Logged in both directions of the channel: `first` = the request comes
+            # from the SENDER of that direction, `ok` = the application on the requesting endpoint asked for it
+            dcid, scid = struct.unpack_from("<HH", data, 0)
+            ch = self.by_cid[ep].get(scid)
+            if ch is None or self.by_cid[1 - ep].get(dcid) is not ch:
+                self.stray(ep, f"disconnection request for (dcid 0x{dcid:04x}, scid 0x{scid:04x}) which is no open channel")
+                return
+            if ch.closed_by is None:
+                ch.closed_by = ep
+                for d in (0, 1):
+                    ch.trace[d].append(_ev("close", first=(ep == d), ok=ch.close_asked[ep]))
 
     def _open(self, mode, requester, scids, dcids, req_params, rsp_params):
         for scid, dcid in zip(scids, dcids):
@@ -265,6 +280,10 @@ class Wire:
         ok = bytes(ch.stream[d][off : off + len(data)]) == bytes(data)
         ch.delivered[d] = off + len(data)
         ch.trace[d].append(_ev("sink", n=len(data), ok=ok))
+
+    def app_close(self, ep, ch):
+        """the application on endpoint ep is about to call disconnect() on its end of the channel."""
+        ch.close_asked[ep] = True
 
     def raised(self, ep, ch, what, etype="Exception"):
         """the stack of endpoint ep raised out of a public call / receive path."""
